@@ -15,11 +15,13 @@ import (
 	"sort"
 	"strings"
 	"sync"
+	"time"
 
 	kmip "github.com/ovh/kmip-go"
 	"github.com/ovh/kmip-go/kmipclient"
 	"github.com/ovh/kmip-go/kmipserver"
 	"github.com/ovh/kmip-go/payloads"
+	"github.com/ovh/kmip-go/ttlv"
 
 	"verif/harness/core"
 	"verif/harness/memnet"
@@ -101,7 +103,7 @@ func (in *interp) run(i int, ctx, msg string) (res string, err string) {
 		if in.coreMsgLevel() {
 			return "failed:" + errorText, "" // at message level a failed item is part of a normal response
 		}
-		return "", errorText
+		return "failed:", errorText // the item (not yet marked failed) comes back together with the handler's error
 	}
 	if i == len(in.prog) {
 		n := in.t.nextCore()
@@ -178,8 +180,8 @@ func stage[M any, R any](k kind, i int, t *trace, o ops[M, R]) func(next func(co
 			if err != nil {
 				es = err.Error()
 			}
-			if !o.isNil(res) && err == nil {
-				rid = o.respID(res)
+			if !o.isNil(res) {
+				rid = o.respID(res) // also on the error path: a stage sees whatever its successor returned, item AND error
 			}
 			t.log("exit s%d res=%s err=%s", i, rid, es)
 		}()
@@ -234,8 +236,14 @@ func stage[M any, R any](k kind, i int, t *trace, o ops[M, R]) func(next func(co
 func payloadID(p kmip.OperationPayload) string {
 	switch x := p.(type) {
 	case *payloads.ActivateRequestPayload:
+		if x == nil {
+			return "failed:"
+		}
 		return x.UniqueIdentifier
 	case *payloads.ActivateResponsePayload:
+		if x == nil {
+			return "failed:" // a handler returning (nil, err) leaves a typed nil in the item
+		}
 		return x.UniqueIdentifier
 	}
 	return "?"
@@ -504,7 +512,11 @@ func runProgramCore(c *core.Ctx, chainIdx int, prog []kind, concurrent int, core
 		in := &interp{prog: prog, t: want, coreCtx: ch.coreCtx, core: coreMode, msgLevel: ch.name == "server-message"}
 		wres, werr := in.run(0, "c", base)
 		if strings.HasPrefix(wres, "failed:") {
-			wres, werr = "", strings.TrimPrefix(wres, "failed:") // a failed item is reported as an error by the runners
+			// a failed item is reported as an error by the runners
+			if werr == "" {
+				werr = strings.TrimPrefix(wres, "failed:")
+			}
+			wres = ""
 		}
 		if coreMode != "" {
 			c.Count("programs_run.core-"+coreMode, 1)
@@ -569,6 +581,107 @@ func runProgramCore(c *core.Ctx, chainIdx int, prog []kind, concurrent int, core
 	c.Count("concurrent_runs", 1)
 }
 
+// substituted: a message middleware hands a DIFFERENT message to its continuation (other continuation option, other
+// protocol version, items dropped). The inner stages, the core handler included, must treat exactly that message:
+// the outcome must equal what an executor without middleware produces for the substituted message itself.
+func substituted(c *core.Ctx, r *core.Rand, i int) {
+	type callLog struct {
+		mu    sync.Mutex
+		calls []string
+	}
+	mk := func(log *callLog) *kmipserver.BatchExecutor {
+		ex := kmipserver.NewBatchExecutor()
+		ex.Route(kmip.OperationActivate, kmipserver.HandleFunc(func(ctx context.Context, req *payloads.ActivateRequestPayload) (*payloads.ActivateResponsePayload, error) {
+			log.mu.Lock()
+			log.calls = append(log.calls, req.UniqueIdentifier)
+			log.mu.Unlock()
+			if strings.HasSuffix(req.UniqueIdentifier, "-fail") {
+				return nil, errors.New("scripted failure")
+			}
+			return &payloads.ActivateResponsePayload{UniqueIdentifier: req.UniqueIdentifier}, nil
+		}))
+		return ex
+	}
+	opts := []kmip.BatchErrorContinuationOption{0, kmip.BatchErrorContinuationOptionContinue, kmip.BatchErrorContinuationOptionStop, kmip.BatchErrorContinuationOptionUndo}
+	vers := []kmip.ProtocolVersion{kmip.V1_4, kmip.V1_0, kmip.V1_2, {ProtocolVersionMajor: 2, ProtocolVersionMinor: 0}}
+	n := 1 + r.Intn(5)
+	m := &kmip.RequestMessage{Header: kmip.RequestHeader{ProtocolVersion: vers[r.Intn(len(vers))], BatchErrorContinuationOption: opts[r.Intn(4)], BatchCount: int32(n)}}
+	for k := 0; k < n; k++ {
+		id := fmt.Sprintf("s%d-%d-ok", i, k)
+		if r.P(1, 3) {
+			id = fmt.Sprintf("s%d-%d-fail", i, k)
+		}
+		m.BatchItem = append(m.BatchItem, kmip.RequestBatchItem{Operation: kmip.OperationActivate, UniqueBatchItemID: []byte{byte(k + 1)}, RequestPayload: &payloads.ActivateRequestPayload{UniqueIdentifier: id}})
+	}
+	// the substitution
+	newOpt, newVer := opts[r.Intn(4)], vers[r.Intn(len(vers))]
+	drop := r.P(1, 3) && n > 1
+	T := func(in *kmip.RequestMessage) *kmip.RequestMessage {
+		out := *in
+		out.Header.BatchErrorContinuationOption = newOpt
+		out.Header.ProtocolVersion = newVer
+		out.BatchItem = append([]kmip.RequestBatchItem{}, in.BatchItem...)
+		if drop {
+			out.BatchItem = out.BatchItem[1:]
+		}
+		out.Header.BatchCount = int32(len(out.BatchItem))
+		return &out
+	}
+	depth := r.Intn(3) // pass-through stages around the substituting one
+	logA, logB := &callLog{}, &callLog{}
+	exA, exB := mk(logA), mk(logB)
+	pass := func(next kmipserver.Next, ctx context.Context, rm *kmip.RequestMessage) (*kmip.ResponseMessage, error) {
+		return next(ctx, rm)
+	}
+	for k := 0; k < depth; k++ {
+		exA.Use(pass)
+	}
+	exA.Use(func(next kmipserver.Next, ctx context.Context, rm *kmip.RequestMessage) (*kmip.ResponseMessage, error) {
+		return next(ctx, T(rm))
+	})
+	if r.Bool() {
+		exA.Use(pass)
+	}
+	label := fmt.Sprintf("option %d->%d, version %v->%v, first item dropped=%v, %d items", m.Header.BatchErrorContinuationOption, newOpt, m.Header.ProtocolVersion, newVer, drop, n)
+	var respA, respB *kmip.ResponseMessage
+	if p, pv, st := core.Guard(func() {
+		respA = exA.HandleRequest(context.Background(), m)
+		respB = exB.HandleRequest(context.Background(), T(m))
+	}); p {
+		c.Violation(core.PanicSig(pv, st), fmt.Sprintf("HandleRequest panicked (%s): %v", label, pv), map[string]any{"stack": st})
+		return
+	}
+	c.Count("substituted_messages", 1)
+	if m.Header.BatchErrorContinuationOption != newOpt {
+		c.Count("substituted_messages.option-changed", 1)
+	}
+	if m.Header.ProtocolVersion != newVer {
+		c.Count("substituted_messages.version-changed", 1)
+	}
+	c.Distinct(core.Hash64("subst", label, fmt.Sprint(logB.calls)))
+	norm := func(resp *kmip.ResponseMessage) string {
+		if resp == nil {
+			return "<nil>"
+		}
+		cp := *resp
+		cp.Header.TimeStamp = time.Unix(0, 0)
+		// a whole-request rejection travels outwards as an error and is turned into a response by the OUTERMOST layer,
+		// for the message the client sent: the version echoed in the header is not the inner stages' business (C09)
+		cp.Header.ProtocolVersion = kmip.ProtocolVersion{}
+		return string(ttlv.MarshalText(&cp))
+	}
+	a, b := norm(respA), norm(respB)
+	if fmt.Sprint(logA.calls) != fmt.Sprint(logB.calls) {
+		c.Violation("C19:server-message:substituted-message:handler-executions", fmt.Sprintf("a middleware passed on a substituted message (%s): handlers ran for %v, for the substituted message alone they run for %v", label, logA.calls, logB.calls),
+			map[string]any{"response_through_chain": a, "response_to_substituted_message": b})
+		return
+	}
+	if a != b {
+		c.Violation("C19:server-message:substituted-message:response", fmt.Sprintf("a middleware passed on a substituted message (%s): the response differs from the one the substituted message gets on its own", label),
+			map[string]any{"response_through_chain": a, "response_to_substituted_message": b})
+	}
+}
+
 func Spec() *core.Spec {
 	slog.SetDefault(slog.New(slog.NewTextHandler(io.Discard, nil)))
 	return &core.Spec{
@@ -577,9 +690,15 @@ func Spec() *core.Spec {
 		Race:  true,
 		Rule: "all programs of length 0..3 (quick) / 0..4 (thorough) over 10 stage kinds {pass, call next 2x, 3x, call next twice concurrently (hedged; judged on the multiset of events), short-circuit with response, short-circuit with error, replace message, replace context, fail after next, rewrite response} " +
 			"for the client chain (scripted server as transport), the server message chain and the server batch-item chain; every program run once alone and once from 16 goroutines sharing the chain (race detector on); " +
-			"the recorded enter/core/exit trace of every request must equal the trace of a reference interpreter, event for event. the server chains also over a core that panics, returns an error or rejects the protocol version; distinct = distinct (chain, program)",
-		Required: []string{"programs_run.client", "programs_run.server-message", "programs_run.server-batch-item", "concurrent_runs", "events", "hedged_programs_run", "programs_run.core-panic", "programs_run.core-error", "programs_run.core-version"},
+			"the recorded enter/core/exit trace of every request must equal the trace of a reference interpreter, event for event. the server chains also over a core that panics, returns an error or rejects the protocol version; a message middleware substituting a message with another continuation option / version / item list, compared with a middleware-free executor given the substituted message; distinct = distinct (chain, program)",
+		Required: []string{"programs_run.client", "programs_run.server-message", "programs_run.server-batch-item", "concurrent_runs", "events", "hedged_programs_run", "programs_run.core-panic", "programs_run.core-error", "programs_run.core-version", "substituted_messages.option-changed", "substituted_messages.version-changed"},
 		Families: []core.Family{
+			{Name: "substituted-message", N: func(tier string) int {
+				if tier == core.Thorough {
+					return 300000
+				}
+				return 6000
+			}, Run: substituted},
 			{Name: "programs", Exhaustive: true, N: func(tier string) int {
 				if tier == core.Thorough {
 					return 3 * progCount(4)
